@@ -61,7 +61,8 @@ def history(draw):
         k = draw(st.sampled_from(
             ['edit', 'verify', 'verify', 'lookup', 'lookup',
              'update-discard', 'update-entry', 'update-save', 'update-save',
-             'cli-verify', 'fail-dir', 'fail-loop', 'fail-fault']))
+             'cli-verify', 'fail-dir', 'fail-loop', 'fail-fault',
+             'fail-sign']))
         s = {'k': k}
         if k == 'edit':
             s['ops'] = draw(updgen.edits(state, max_ops=3, min_ops=1))
@@ -71,9 +72,15 @@ def history(draw):
         elif k == 'lookup':
             s['path'] = draw(st.sampled_from(paths))
             s['dist'] = draw(st.sampled_from(['foo-1.tar.gz', 'a', 'nope']))
-        elif k in ('update-discard', 'update-save', 'fail-fault'):
-            s['opts'] = draw(updgen.update_opts(state))
+        elif k in ('update-discard', 'update-save', 'fail-fault',
+                   'fail-sign'):
+            s['opts'] = draw(updgen.update_opts(
+                state, allow_cli=(k != 'fail-sign')))
             s['timestamp'] = draw(st.integers(0, 3)) == 0
+            if k == 'update-save' and draw(st.integers(0, 2)) == 0:
+                # the loader that saves has verified (part of) the tree first
+                s['opts']['api'] = 'lib'
+                s['preverify'] = draw(st.sampled_from(dirs))
             if k == 'fail-fault':
                 s['nth'] = draw(st.integers(0, 40))
                 s['errno'] = draw(st.sampled_from([5, 13, 12, 24]))
@@ -198,7 +205,8 @@ def check_save(root, before, after, view_b, view_a, step, what):
             mdir = refscan.dirname(mp)
             for e in entries:
                 if e.tag in ('DATA', 'MISC', 'EBUILD', 'AUX', 'MANIFEST'):
-                    full = os.path.normpath(refscan.join(mdir, e.path))
+                    # (literal paths, as gemato takes them)
+                    full = refscan.join(mdir, e.path)
                     m.setdefault(full, []).append((lg, e))
         return m
     fb, fa = file_entries(view_b), file_entries(view_a)
@@ -234,6 +242,21 @@ def check_save(root, before, after, view_b, view_a, step, what):
                         f'{full!r} from {sig(fb.get(full, []))} to '
                         f'{sig(fa.get(full, []))}')
     return None
+
+
+class FailingSigner:
+    """OpenPGP backend whose signing operation fails."""
+
+    def clear_sign_file(self, f, outf, keyid=None):
+        from gemato.exceptions import OpenPGPSigningFailure
+        outf.write('-----BEGIN PGP SIGNED MESSAGE-----\n')
+        raise OpenPGPSigningFailure('gpg: signing failed: No secret key')
+
+    def verify_file(self, f):
+        raise AssertionError('not used')
+
+    def close(self):
+        pass
 
 
 def run_case(desc):
@@ -292,6 +315,29 @@ def run_case(desc):
                 if os.path.isdir(os.path.join(root, o['target'])):
                     updgen.run_update(root, o, save=False)
                     nontrivial = True
+            elif k == 'fail-sign':
+                # the save fails for a reason that is not an I/O error: the
+                # OpenPGP backend cannot sign the top-level Manifest
+                o = s['opts']
+                if not os.path.isdir(os.path.join(root, o['target'])):
+                    continue
+                oc = updgen.run_update(
+                    root, o, loader_kwargs={'sign_openpgp': True,
+                                            'openpgp_env': FailingSigner()})
+                after = fsnap.snapshot(root)
+                if oc.kind != 'return':
+                    d = fsnap.diff(snap, after)
+                    alien = [p for p in fsnap.changed_paths(d)
+                             if not is_manifest_name(p)]
+                    if alien:
+                        return violation(
+                            f'{what}: update whose save failed ({oc!r}) '
+                            f'touched non-Manifest paths {alien}',
+                            sig='non-manifest-touched:failed-signing',
+                            classes=classes)
+                    nontrivial = True
+                snap = after
+                continue
             elif k in ('fail-dir', 'fail-loop', 'fail-fault'):
                 if k == 'fail-dir':
                     mutate.apply_ops(root, [{'op': 'retype', 'p': s['path'],
@@ -346,8 +392,18 @@ def run_case(desc):
                 extra = ['-t'] if (s['timestamp'] and o['api'] == 'cli'
                                    and not o['target']) else []
                 s2 = dict(s, timestamp=bool(extra))
+                pre = None
+                if s.get('preverify') is not None and not create:
+                    classes.append('verify-then-update-on-one-loader')
+
+                    def pre(m, sub=s['preverify']):
+                        try:
+                            m.assert_directory_verifies(
+                                sub, fail_handler=lambda e: False)
+                        except Exception:
+                            pass
                 oc = updgen.run_update(root, o, create=create,
-                                       extra_cli=extra)
+                                       extra_cli=extra, pre=pre)
                 if oc.kind == 'return':
                     after = fsnap.snapshot(root)
                     view_a = manifest_view(root)
